@@ -201,7 +201,7 @@ pub fn run(run: &Run) {
     run.assume("Integer(n) and Number(x) are identified when numerically equal; dictionary order ignored; stream /Length ignored");
     leaf_sweep(run);
     if !run.quick() { crate::lanes::miri(run, "parse", &[11, 12, 13, 14, 15, 16], None); }
-    let n = run.n(400_000, 6_000_000);
+    let n = run.n(400_000, 20_000_000);
     par_for(n, |i| {
         let s = Src::fresh(Rng::derive(run.seed, 4, i));
         run.eval();
